@@ -104,6 +104,7 @@ func runStore(o *Out, r *rand.Rand, thorough bool, args []string) {
 	for h := 0; h < nHist; h++ {
 		storeHistory(o, r, h, nPuts, thorough)
 	}
+	bigHistory(o, r)
 	twoStores(o, r)
 	aliasHistory(o, r, thorough)
 	concSchedules(o, r)
@@ -236,6 +237,58 @@ func concPruneSync(o *Out, r *rand.Rand) {
 		time.Sleep(20 * time.Millisecond)
 		ob := observe(db)
 		o.Case(fmt.Sprintf("concprune rep=%d", rep), fmt.Sprintf("%s persisted=%d held=%d cap=1000000", outcome, ob.persisted, ob.held))
+	}
+}
+
+// bigHistory: a store of 330 MB (the client's default is 10 000 MB; every other history uses 1..5 MB) filled with items of 8.1 MB
+// until it has pruned a few times: the 5 % rule is about the CONFIGURED capacity, whatever its size.
+func bigHistory(o *Out, r *rand.Rand) {
+	const capMB = 330
+	var node enode.ID
+	r.Read(node[:])
+	db, err := pebble.Open("", &pebble.Options{FS: vfs.NewMem()})
+	if err != nil {
+		panic(err)
+	}
+	cfg := storage.PortalStorageConfig{StorageCapacityMB: capMB, NodeId: node, NetworkName: "verif"}
+	st, err := spebble.NewStorage(cfg, db)
+	if err != nil {
+		panic(err)
+	}
+	o.Case(fmt.Sprintf("open cap=%d node=%s", capMB*1000_000, hex.EncodeToString(node[:])), "ok "+observe(db).snap(st))
+	// 8.1 MB per item: two of them free 16.2 MB, less than the 16.5 MB that are 5 % of this capacity - a pass needs three
+	val := make([]byte, 8100_000-32)
+	for i := 0; i < 46; i++ {
+		id := make([]byte, 32)
+		r.Read(id)
+		before := observe(db)
+		err := st.Put(nil, id, val)
+		after := observe(db)
+		res := "ok"
+		if errors.Is(err, storage.ErrInsufficientRadius) {
+			res = "insufficient_radius"
+		} else if err != nil {
+			res = "err"
+		}
+		key := xorKey(id, node[:])
+		dropped, minDropped := 0, "-"
+		if res == "ok" {
+			before.keys[string(key)] = true
+			var dk []string
+			for k := range before.keys {
+				if !after.keys[k] {
+					dk = append(dk, k)
+				}
+			}
+			sort.Strings(dk)
+			dropped = len(dk)
+			if dropped > 0 {
+				minDropped = hex.EncodeToString([]byte(dk[0]))
+			}
+		}
+		// zeros=1: the value is all zero bytes (its digest is not compared; sizes are what this history is about)
+		o.Case(fmt.Sprintf("put id=%s len=%d seed=0 small=1 zeros=1", hex.EncodeToString(id), len(val)),
+			fmt.Sprintf("%s %s dropped=%d mindropped=%s", res, after.snap(st), dropped, minDropped))
 	}
 }
 
